@@ -90,7 +90,7 @@ br_aes_ct64_ctr_run(const br_aes_ct64_ctr_keys *ctx,
 		br_range_enc32le(tmp, w, 16);
 		if (len <= 64) {
 			xorbuf(buf, tmp, len);
-			cc += (uint32_t)len >> 4;
+			cc += ((uint32_t)len + 15) >> 4;
 			break;
 		}
 		xorbuf(buf, tmp, 64);
